@@ -920,6 +920,7 @@ func c18TempBase() string {
 }
 
 type c18Exec struct {
+	debugLog bool // DB.DebugLog is set on every database object of this execution
 	file   string
 	db     *sqlite.DB
 	others []*sqlite.DB // objects still open beside db
@@ -1044,6 +1045,14 @@ func (e *c18Exec) ctxFor(o *c18Op) context.Context {
 	return e.db.TokenContext(ctx, tok)
 }
 
+var c18Executions int
+
+func (e *c18Exec) logging() {
+	if e.debugLog && e.db != nil {
+		e.db.DebugLog = &c19LogSink{}
+	}
+}
+
 func (e *c18Exec) reopen(mode int) error {
 	switch mode {
 	case 0:
@@ -1053,6 +1062,7 @@ func (e *c18Exec) reopen(mode int) error {
 			return err
 		}
 		e.db = db
+		e.logging()
 	case 1:
 		db, err := sqlite.Open(e.file, "")
 		if err != nil {
@@ -1060,6 +1070,7 @@ func (e *c18Exec) reopen(mode int) error {
 		}
 		e.others = append(e.others, e.db)
 		e.db = db
+		e.logging()
 	case 2:
 		e.db = sqlite.New(e.db.DB())
 	case 3:
@@ -1170,6 +1181,11 @@ func c18Execute(base string, plan []*c18Op, reopen bool) (results []string, pani
 	if e.db, err = sqlite.Open(e.file, ""); err != nil {
 		return nil, nil, 0, err
 	}
+	// every other execution runs with the store's statement log (DB.DebugLog) switched on: what is stored and read back must
+	// not depend on it
+	c18Executions++
+	e.debugLog = c18Executions%2 == 0
+	e.logging()
 	defer e.close()
 	for i, o := range plan {
 		if o.Kind == "R" && !reopen {
